@@ -38,4 +38,15 @@ where
             Self::VcfGz(writer) => writer.write_variant_record(header, record).await,
         }
     }
+
+    pub(super) async fn shutdown(&mut self) -> io::Result<()> {
+        use tokio::io::AsyncWriteExt;
+
+        match self {
+            Self::Bcf(writer) => writer.get_mut().shutdown().await,
+            Self::BcfRaw(writer) => writer.get_mut().shutdown().await,
+            Self::Vcf(writer) => writer.get_mut().shutdown().await,
+            Self::VcfGz(writer) => writer.get_mut().shutdown().await,
+        }
+    }
 }
